@@ -4,7 +4,7 @@ From Coq Require Import ZArith Reals String List Bool Lia.
 From J2O Require Import PyLib Dtype CastSem.
 From J2OGen Require Import LibTables GenCast.
 Import ListNotations.
-Open Scope Z_scope.
+Local Open Scope Z_scope.
 
 (* ---- the library dump agrees with the reference table of Dtype.v *)
 Definition lib_int_info (d : dtype) : option (bool * Z) :=
